@@ -83,9 +83,7 @@ func genC11(g *gen) {
 	nf := g.pick(4, 60)
 	for i := 0; i < nf; i++ {
 		cov := g.bytes(1 + g.r.Intn(g.pick(12, 40)))
-		sum := digest.New()
-		sum.Write(cov)
-		tr := sum.Sum(nil)
+		tr := crc64Trailer(cov)
 		g.emit("footer %s %s", hx(cov), hx(tr))
 		all := append(append([]byte{}, cov...), tr...)
 		for pos := 0; pos < len(all); pos++ {
@@ -110,25 +108,23 @@ func genC11(g *gen) {
 				tot += n
 			}
 			big := g.bytes(tot)
-			bs := digest.New()
-			bs.Write(big)
+			bsum := crc64Trailer(big)
 			dl := "x"
 			if g.r.Intn(2) == 0 {
 				dl = "x/" + deliveryModes[g.r.Intn(len(deliveryModes))] + fmt.Sprint(g.r.Intn(1000))
 			}
-			g.emit("footer %s %s %s@%s", hx(big), hx(bs.Sum(nil)), dl, strings.Join(req, "+"))
+			g.emit("footer %s %s %s@%s", hx(big), hx(bsum), dl, strings.Join(req, "+"))
 		}
 		// the same intact / damaged stream reaching the loader in pieces (short reads, byte by byte, data together with EOF,
 		// interleaved empty reads): the running CRC must cover every byte exactly once, however it was delivered
 		for k := 0; k < 6; k++ {
 			dl := "x/" + deliveryModes[g.r.Intn(len(deliveryModes))] + fmt.Sprint(g.r.Intn(1000))
 			big := g.bytes(20 + g.r.Intn(300))
-			bs := digest.New()
-			bs.Write(big)
-			g.emit("footer %s %s %s", hx(big), hx(bs.Sum(nil)), dl)
+			bsum := crc64Trailer(big)
+			g.emit("footer %s %s %s", hx(big), hx(bsum), dl)
 			e := append([]byte{}, big...)
 			e[g.r.Intn(len(e))] ^= byte(1 << uint(g.r.Intn(8)))
-			g.emit("footer %s %s %s", hx(e), hx(bs.Sum(nil)), dl)
+			g.emit("footer %s %s %s", hx(e), hx(bsum), dl)
 		}
 		// structured wrong trailers: the special values of a 64-bit comparison
 		for _, t := range specialTrailers(tr) {
